@@ -18,7 +18,8 @@ LEVEL_TEXT = ('Decides clauses C09-a..f: in every method of the URL-encoded Seri
               "over a `,` only as the lead-in of the element that follows it (before that element's extent is computed, so a trailing empty element is not lost), and"
               ' decodes each element with the decoder of scalar values; from deserialize_ignored_any no decoding or validating function is reachable (the value of an'
               ' unknown key is skipped raw, so it cannot influence the outcome); the `,` between sequence elements is decided by position, not by a test of the text '
-              'written so far. Decides these clauses, not round-trip equality for all values (e.g. the comma-separated sequence reader).')
+              'written so far. The query iterator searches for `=` / `&` in the raw pair and decodes the pieces afterwards (no separator search in percent-decoded '
+              'text). Decides these clauses, not round-trip equality for all values (e.g. the comma-separated sequence reader).')
 
 SER = r"ohkami_lib::serde_urlencoded::ser::URLEncodedSerializer"
 NUMERIC = {"u8", "u16", "u32", "u64", "u128", "usize", "i8", "i16", "i32", "i64", "i128", "isize", "f32", "f64"}
@@ -36,6 +37,7 @@ def run(ck, progs):
         ck.guard("C09-d PAIR sequence reader", lambda: c09d(ck, prog))
         ck.guard("C09-e REACH unknown pairs", lambda: c09e(ck, prog))
         ck.guard("C09-f DECISION element separator", lambda: c09f(ck, prog))
+        ck.guard("C09-g ORDER split before decoding", lambda: c09g(ck, prog))
     ck.config = None
 
 
@@ -367,3 +369,37 @@ def c09f(ck, prog):
                   "" if ok else "the `,` before a sequence element is pushed depending on `%s` of the text written so far: after an empty first element nothing distinguishes the second element from the first, "
                   "so `[\"\", \"y\"]` is written `a=y` and reads back as one element" % onout[0].call.name, how="the separator is decided by position (a first-element flag), not by the output text")
     ck.floor(R, "sequence-like element serializers", n, 3)
+
+
+def c09g(ck, prog):
+    """`percent-decoding`: the separators `&` and `=` structure the *encoded* text; an escaped `%3D` / `%26` is data. The query
+    iterator must look for `=` (and `&`) in the raw bytes and decode the pieces afterwards -- a search in already decoded
+    text takes an escaped `=` inside a key for the separator."""
+    R = "C09-g ORDER split before decoding"
+    mod = [g for g in prog.fns.values() if g.crate == "ohkami" and g.key.startswith("ohkami::request::query::")]
+    n = 0
+    for g in sorted(mod, key=lambda x: x.key):
+        for c in g.calls():
+            if c.name not in ("position", "rposition", "find", "rfind", "split_once", "rsplit_once", "split", "splitn", "split_terminator", "split_at", "iter") or not c.args:
+                continue
+            # is this a search for one of the separators?
+            pats = []
+            for a in c.args[1:]:
+                ca = g.origin(a)
+                if ca and ca[-1][0] == "const":
+                    pats.append(ca[-1][1].get("ch") or ca[-1][1].get("s") or (chr(int(ca[-1][1]["v"])) if ca[-1][1].get("ty") in ("u8", "&u8") and "v" in ca[-1][1] else None))
+                elif ca and ca[-1][0] == "agg" and ca[-1][1][1].get("k") == "closure":
+                    cf = prog.fns.get(ca[-1][1][1].get("def"))
+                    txt = str(cf.blocks) if cf is not None else ""
+                    for ch_ in "=&":
+                        if "'v': '%d'" % ord(ch_) in txt:
+                            pats.append(ch_)
+            if not any(p_ in ("=", "&") for p_ in pats if p_):
+                continue
+            n += 1
+            d = decision.describe_deep(g, c.args[0], 8)
+            ok = re.search(r"decoded_utf8\(|percent_decode|from_utf8_lossy\(|decode\(", d) is None
+            ck.ob(R, "%s:%s-on-raw-bytes" % (g.name if "closure" not in g.name else g.key.rsplit("::", 2)[-2] + "::" + g.name, c.name), ok, g.loc(c.sp),
+                  "" if ok else "the query iterator searches for `%s` in `%s`, i.e. in text that was already percent-decoded: an escaped separator inside a key or value (`a%%3Db=c`) is taken for the real one"
+                  % ("/".join(sorted({p_ for p_ in pats if p_})), d[:80]), how="separator searched in the raw pair: %s" % d[:60])
+    ck.floor(R, "separator searches in request::query", n, 2)
